@@ -2,6 +2,10 @@
 // T = vs::VPay (every payload access is a two-step window), Mutex = std::mutex (instrumented).
 // cfg = <slots per thread> <throw plan: global indices of the user_call invocations that throw>...
 // ops:  0 fid   modify(f_fid)        f_fid(x) = user_call(fid); x.write(x.read()*8+fid); user_call(fid+100)
+//       0 fid 1 the same modification passed as an RVALUE class object whose call operator is value-category
+//               aware: operator()(T&) && behaves like f_fid and then gives up its state (every later call only
+//               does user_call(fid+50)).  modify must apply its named parameter (an lvalue) twice, so the
+//               && overload never runs and the trace is the same as for `0 fid`.
 //       1..4 s  lock_shared / try_lock_shared / try_lock_shared_for / try_lock_shared_until into slot s
 //       5 s     read once through the handle in slot s (returns the value)
 //       6 s     release the handle in slot s
@@ -16,6 +20,35 @@
 #undef std
 #include "driver.hpp"
 #include <optional>
+
+// value-category aware functor (see op `0 fid 1`)
+struct RvFunctor {
+    long fid;
+    bool spent = false;
+    void body(vs::VPay& x)
+    {
+        vs::user_call(fid);
+        x.write(x.read() * 8 + fid);
+        vs::user_call(fid + 100);
+    }
+    void operator()(vs::VPay& x) &
+    {
+        if (spent) {
+            vs::user_call(fid + 50);
+            return;
+        }
+        body(x);
+    }
+    void operator()(vs::VPay& x) &&
+    {
+        if (spent) {
+            vs::user_call(fid + 50);
+            return;
+        }
+        body(x);
+        spent = true;  // an rvalue call may consume the captured state
+    }
+};
 
 struct LRComp {
     using LR = gmlc::libguarded::lr_guarded<vs::VPay, vstd::mutex>;
@@ -33,6 +66,10 @@ struct LRComp {
     long op(int tid, const std::vector<long>& o)
     {
         const long a = o.size() > 1 ? o[1] : 0;
+        if (o[0] == 0 && o.size() > 2 && o[2] == 1) {
+            lr.modify(RvFunctor{a});
+            return 0;
+        }
         if (o[0] == 0) {
             lr.modify([a](vs::VPay& x) {
                 vs::user_call(a);
@@ -58,9 +95,16 @@ struct LRComp {
     }
     void final(std::vector<std::vector<long>>& out)
     {
+#ifndef VS_NO_PEEK
         out.push_back({lr.m_left.peek(), lr.m_right.peek(), (long)lr.m_readingLeft.vs_peek(),
                        (long)lr.m_countingLeft.vs_peek(), (long)lr.m_leftReadCount.vs_peek(),
                        (long)lr.m_rightReadCount.vs_peek(), vs::plan().faults});
+        // the range of the reader counters (the model's are unbounded; it assumes int: LRModel.COUNTER_MAX)
+        out.push_back({(long)std::numeric_limits<decltype(lr.m_leftReadCount.vs_peek())>::max(),
+                       (long)std::numeric_limits<decltype(lr.m_rightReadCount.vs_peek())>::max()});
+#else
+        (void)out;
+#endif
     }
 };
 int main(int argc, char** argv) { return vs::drive<LRComp>(argc, argv); }
